@@ -509,7 +509,8 @@ class SqwEngine(Engine):
             "acknowledgement rule: a create() that returns normally has acknowledged its file, which "
             "must then satisfy the property in full; a create() that raises is not judged",
             "only write-side faults; no read faults / torn inputs (format has no integrity data)",
-            "non-ASCII strings are not generated (statement: 'any length', not any alphabet)",
+            "strings (title, labels, names): printable ASCII, plus (15 %) accents, CJK, astral-plane and control characters, NUL, and NUL-/blank-padded fixed-width strings; lengths 0..300, rarely 65535..70000",
+            "histograms up to ~50 000 elements with sizes on 2**m boundaries; 3 % of histogram programs have 2**20 or 2**21 elements (those run without fault enumeration)",
             "experiment u/v vectors are supplied dimensionless (the format stores them unit-less)",
             "creation dates are logged, not judged (not in the statement)",
         ]
